@@ -265,6 +265,21 @@ macro_rules! kind {
 
 kind!(run_u8, u8, "u8", |a| [7u8, 200, 0, 255][a as usize], |x| match *x { 7 => 0, 200 => 1, 0 => 2, 255 => 3, _ => 99 }, || None);
 kind!(run_u64, u64, "u64", |a| [1u64 << 40, 3, 0, u64::MAX][a as usize], |x| match *x { 3 => 1, 0 => 2, u64::MAX => 3, v if v == 1u64 << 40 => 0, _ => 99 }, || None);
+// an element type whose stored form (T::Transformed = RotoOption<u64>) differs from the Rust type
+kind!(
+    run_optu64,
+    Option<u64>,
+    "u64?",
+    |a| [Some(1u64 << 40), None, Some(0), Some(u64::MAX)][a as usize],
+    |x| match *x {
+        None => 1,
+        Some(0) => 2,
+        Some(u64::MAX) => 3,
+        Some(v) if v == 1u64 << 40 => 0,
+        _ => 99,
+    },
+    || None
+);
 kind!(
     run_string,
     RotoString,
@@ -315,6 +330,7 @@ fn main() {
     match kind.as_str() {
         "u8" => run_u8(&rt, &route, &args),
         "u64" => run_u64(&rt, &route, &args),
+        "optu64" => run_optu64(&rt, &route, &args),
         "string" => run_string(&rt, &route, &args),
         "list" => run_list(&rt, &route, &args),
         "tr24" => run_tr24(&rt, &route, &args),
